@@ -1189,7 +1189,14 @@ func newOfficialRoaringIterator(data []byte) (*officialRoaringIterator, error) {
 	r.headers = data[headerOffset:offsetOffset]
 	// note: offsets are only actually used with the no-run headers.
 	if r.haveRuns {
-		// start out pointed at where the offsets would have been.
+		// the run format only stores an offset header when there are at
+		// least officialNoOffsetThreshold containers; container data follows it.
+		if keys >= officialNoOffsetThreshold {
+			offsetOffset += int(keys) * 4
+		}
+		if offsetOffset > len(data) {
+			return nil, fmt.Errorf("offset header overruns buffer at %d", offsetOffset)
+		}
 		r.currentDataOffset = uint32(offsetOffset)
 	} else {
 		r.offsets = data[offsetOffset : offsetOffset+int(r.keys*4)]
@@ -5076,6 +5083,10 @@ func popcountAndSlice(s, m []uint64) uint64 {
 const (
 	serialCookieNoRunContainer = 12346 // only arrays and bitmaps
 	serialCookie               = 12347 // runs, arrays, and bitmaps
+
+	// officialNoOffsetThreshold is the container count from which the
+	// official format with run containers includes an offset header.
+	officialNoOffsetThreshold = 4
 )
 
 func readOfficialHeader(buf []byte) (size uint32, containerTyper func(index uint, card int) byte, header, pos int, haveRuns bool, err error) {
@@ -5216,6 +5227,11 @@ func readOffsets(b *Bitmap, data []byte, pos int, keyN uint32) error {
 }
 
 func readWithRuns(b *Bitmap, data []byte, pos int, keyN uint32) error {
+	// the run format only stores an offset header when there are at least
+	// officialNoOffsetThreshold containers; container data follows it.
+	if keyN >= officialNoOffsetThreshold {
+		pos += int(keyN) * 4
+	}
 	if len(data) < pos+runCountHeaderSize {
 		return fmt.Errorf("offset incomplete: len=%d", len(data))
 	}
